@@ -75,6 +75,16 @@ PROPS = {
                         "nil and empty byte slices are equal on the wire (protobuf cannot distinguish them); LogEntry.Offset is storage-local and not compared",
                         "the end-to-end transfer uses real time with generous deadlines (8 s per transfer); it runs in shard 0 only"],
     },
+    "C20": {
+        "test": "TestC20", "corpus_test": "", "level": "exploration", "engine": "E-RACE", "race": True,
+        "tiers": {
+            "quick": {"shards": 16, "cases": 60, "timeout_s": 1500},
+            "thorough": {"shards": 16, "cases": 600, "timeout_s": 10800},
+        },
+        "assumptions": ["the Go race detector only sees accesses that were executed: absence of a report is evidence about the explored interleavings only",
+                        "the simulator runs on all cores here (no GOMAXPROCS=1), so the schedule is not reproducible; a report is the reproducible unit",
+                        "reports are attributed to the library only if the first non-runtime frame of both conflicting accesses is inside github.com/jmsadair/raft; a report involving harness code makes the run inconclusive"],
+    },
     "C12": {
         "test": "TestC12", "corpus_test": "TestCorpusC12", "level": "fault_enumeration",
         "engine": "E-STORE",
@@ -127,6 +137,11 @@ MANIFEST_TEXT = {
         },
         "assumptions": STORE_ASSUMPTIONS + ["the snapshot storage is documented as not concurrency-safe: writers are generated one at a time",
                                             "whether a file is replaced by rename or rewritten in place is decided per call from the inode of the target (same inode => in-place prefixes are crash images too)"],
+    },
+    "C20": {
+        "technique": "generated concurrent API workloads under the Go race detector",
+        "level_text": "The simulator's snapshot-, membership- and lifecycle-heavy schedules are combined with generated workloads of 4-32 goroutines calling the public API concurrently, on a binary built with -race and running on all cores; every race-detector report is parsed, de-duplicated by the pair of source locations and attributed to the library or to the harness. A sampling claim: only executed interleavings are seen.",
+        "level_note": "Trusted: the race detector; the attribution rule (both first non-runtime frames inside the library); the harness itself must be race-free (any report touching harness code makes the run inconclusive rather than a verdict).",
     },
     "C19": {
         "technique": "property-based round-trip testing through the real gRPC transport and the storage encoders, plus an end-to-end snapshot transfer",
